@@ -413,6 +413,11 @@ func runC08(r *Run) {
 			// that has no context deadline; only flag it when the stream had ended.
 			if endEOF {
 				r.Violate("stuck", sig, "reader did not finish on a finite stream: parked=%v", r.S.ParkedIDs())
+			} else if lp := plan[len(plan)-1]; lp.special == 2 && api != 3 && cur >= 0 && int64(lp.size) > cur+1 && len(results) == len(plan)-1 {
+				// ... but not once more than limit+1 bytes of the message have arrived: from
+				// then on the read has everything it needs to fail and to send its 1009,
+				// whatever the sender does with the rest of the frame
+				r.Violate("over-limit-read-waits-for-the-rest", sig, "a frame declaring a huge length delivered %d payload bytes (limit %d) and then stalled: the read of that message never failed (it waits for bytes it would not deliver): parked=%v", lp.size, cur, r.S.ParkedIDs())
 			}
 		}
 		return
